@@ -100,6 +100,8 @@ package allocator
 //@ pred InvG(a *Allocator, on bool, svc string, al *alloc, i int, j int) :=
 //@     InvMaps(a) && InvSvc(a, on, svc, al, i) && InvPorts(a, on, svc, al, i, j) && InvKeys(a, on, svc, al) && InvAllocs(a, on, al)
 //@ pred Inv(a *Allocator) := InvG(a, false, "", nil, 0, 0)
+// ---- C20: the pool counters are read by the pool-status reconciler concurrently ----
+//@ guarded_by Allocator.countersMutex : Allocator.poolToCounters
 
 // ---- the same invariant while `assign` is recording al for svc: allocated[svc] == al already, but only the
 // addresses al.ips[0..i) are recorded, and for al.ips[i] only the ports al.ports[0..j). ----
@@ -134,9 +136,16 @@ package allocator
 //@         && (forall p Port :: HasPort(al, p) ==> !HasPort(a.allocated[s], p))
 
 //@ func (*Allocator).assign
-//@   modifies map[string]*alloc, map[Port]string, map[string]bool, map[string]int, map[string]PoolCounters, fresh *ipaddr.Prefix, fresh *ipaddr.Cursor, fresh *ipaddr.Position, fresh []ipaddr.Prefix, gint("cursor.pos"), fresh []string, fresh []interface{}
-//@   requires Inv(a) && a.countersChangedCallback != nil && WFAlloc(alloc) && alloc.pool in a.pools.ByName && SafeFor(a, svc, alloc) && PoolsOK(a.pools.ByName)
-//@   requires forall s string :: a.allocated[s] != alloc || s == svc
+//@   modifies map[string]*alloc, map[Port]string, map[string]bool, map[string]int, map[string]PoolCounters, fresh *ipaddr.Prefix, fresh *ipaddr.Cursor, fresh *ipaddr.Position, fresh []ipaddr.Prefix, gint("cursor.pos"), fresh []string, fresh []interface{}, $held
+//@   requires [unlocked] lockstate(a.countersMutex) == 0
+//@   ensures [unlocked] lockstate(a.countersMutex) == 0
+//@   requires [inv] Inv(a)
+//@   requires [cb] a.countersChangedCallback != nil
+//@   requires [wf] WFAlloc(alloc)
+//@   requires [pool] alloc.pool in a.pools.ByName
+//@   requires [safe] SafeFor(a, svc, alloc)
+//@   requires [poolsok] PoolsOK(a.pools.ByName)
+//@   requires [noAlias] forall s string :: a.allocated[s] != alloc || s == svc
 //@   ensures Inv(a)
 //@   ensures a.allocated[svc] == alloc
 //@   ensures forall s string :: s != svc ==> a.allocated[s] == old(a.allocated[s])
@@ -217,7 +226,9 @@ package allocator
 //@   modifies fresh *ipaddr.Prefix, fresh *ipaddr.Cursor, fresh *ipaddr.Position, fresh []ipaddr.Prefix, gint("cursor.pos")
 //@ func (*Allocator).Unassign
 //@   requires Inv(a) && a.countersChangedCallback != nil && PoolsOK(a.pools.ByName)
-//@   modifies map[string]*alloc, map[Port]string, map[string]bool, map[string]int, map[string]PoolCounters, fresh *ipaddr.Prefix, fresh *ipaddr.Cursor, fresh *ipaddr.Position, fresh []ipaddr.Prefix, gint("cursor.pos"), fresh []string, fresh []interface{}
+//@   modifies map[string]*alloc, map[Port]string, map[string]bool, map[string]int, map[string]PoolCounters, fresh *ipaddr.Prefix, fresh *ipaddr.Cursor, fresh *ipaddr.Position, fresh []ipaddr.Prefix, gint("cursor.pos"), fresh []string, fresh []interface{}, $held
+//@   requires [unlocked] lockstate(a.countersMutex) == 0
+//@   ensures [unlocked] lockstate(a.countersMutex) == 0
 //@   ensures Inv(a)
 //@   ensures a.allocated[svc] == nil
 //@   ensures forall s string :: s != svc ==> a.allocated[s] == old(a.allocated[s])
@@ -292,7 +303,7 @@ package allocator
 
 // ---- C02: pool membership and pool policy ----
 // InCIDRs: some CIDR of the pool contains ip.
-//@ pred InCIDRs(p *config.Pool, ip net.IP) := exists c int :: 0 <= c && c < len(p.CIDR) && net.NetContains(*p.CIDR[c], ip)
+//@ opaque pred InCIDRs(p *config.Pool, ip net.IP) := exists c int :: 0 <= c && c < len(p.CIDR) && net.NetContains(*p.CIDR[c], ip)
 // InPool: ip is an address of pool p that the pool may hand out.
 //@ pred InPool(p *config.Pool, ip net.IP) := InCIDRs(p, ip) && !(p.AvoidBuggyIPs && Buggy(ip))
 //@ pred AllInPool(p *config.Pool, ips []net.IP) := forall k int :: 0 <= k && k < len(ips) ==> InPool(p, ips[k])
@@ -339,7 +350,9 @@ package allocator
 //@     || len(ips) > 2 || (len(ips) == 2 && net.is4(ips[0]) == net.is4(ips[1]))
 //@     || (exists k int :: 0 <= k && k < len(ips) && !Sharable(a, svcKey, net.ipstr(ips[k]), ports, sharing, backend))
 //@ func (*Allocator).Assign
-//@   modifies map[string]*alloc, map[Port]string, map[string]bool, map[string]int, map[string]PoolCounters, fresh *ipaddr.Prefix, fresh *ipaddr.Cursor, fresh *ipaddr.Position, fresh []ipaddr.Prefix, gint("cursor.pos"), fresh []string, fresh []interface{}, fresh *alloc, fresh []Port, fresh *key
+//@   modifies map[string]*alloc, map[Port]string, map[string]bool, map[string]int, map[string]PoolCounters, fresh *ipaddr.Prefix, fresh *ipaddr.Cursor, fresh *ipaddr.Position, fresh []ipaddr.Prefix, gint("cursor.pos"), fresh []string, fresh []interface{}, fresh *alloc, fresh []Port, fresh *key, $held
+//@   requires [unlocked] lockstate(a.countersMutex) == 0
+//@   ensures [unlocked] lockstate(a.countersMutex) == 0
 //@   requires [inv] Inv(a)
 //@   requires [cb] a.countersChangedCallback != nil && svc != nil
 //@   requires [pools] PoolsKeyedOK(a.pools.ByName)
@@ -560,7 +573,9 @@ package allocator
 //@ opaque pred Listed(a *Allocator, svc *v1.Service, pools []*config.Pool) := forall i int :: 0 <= i && i < len(pools) ==>
 //@     pools[i] != nil && (pools[i].Name in a.pools.ByName) && a.pools.ByName[pools[i].Name] == pools[i] && PoolAdmits(pools[i], svc)
 //@ func (*Allocator).allocateFromPools
-//@   modifies map[string]*alloc, map[Port]string, map[string]bool, map[string]int, map[string]PoolCounters, fresh *ipaddr.Prefix, fresh *ipaddr.Cursor, fresh *ipaddr.Position, fresh []ipaddr.Prefix, gint("cursor.pos"), fresh []string, fresh []interface{}, fresh *alloc, fresh []Port, fresh *key, fresh *Allocation, fresh []net.IP
+//@   modifies map[string]*alloc, map[Port]string, map[string]bool, map[string]int, map[string]PoolCounters, fresh *ipaddr.Prefix, fresh *ipaddr.Cursor, fresh *ipaddr.Position, fresh []ipaddr.Prefix, gint("cursor.pos"), fresh []string, fresh []interface{}, fresh *alloc, fresh []Port, fresh *key, fresh *Allocation, fresh []net.IP, $held
+//@   requires [unlocked] lockstate(a.countersMutex) == 0
+//@   ensures [unlocked] lockstate(a.countersMutex) == 0
 //@   requires Inv(a) && a.countersChangedCallback != nil && svc != nil && PoolsKeyedOK(a.pools.ByName) && PortsOK(ports) && PoolListOK(pools)
 //@   ensures Inv(a)
 //@   ensures [others] forall s string :: s != svcKey ==> a.allocated[s] == old(a.allocated[s])
@@ -669,7 +684,9 @@ package allocator
 //@ pred AutoUnpinned(a *Allocator, ips []net.IP) := exists n string :: (n in a.pools.ByName) && Unpinned(a.pools.ByName[n])
 //@     && (forall k int :: 0 <= k && k < len(ips) ==> InCIDRs(a.pools.ByName[n], ips[k]))
 //@ func (*Allocator).Allocate
-//@   modifies map[string]*alloc, map[Port]string, map[string]bool, map[string]int, map[string]PoolCounters, fresh *ipaddr.Prefix, fresh *ipaddr.Cursor, fresh *ipaddr.Position, fresh []ipaddr.Prefix, gint("cursor.pos"), fresh []string, fresh []interface{}, fresh *alloc, fresh []Port, fresh *key, fresh *Allocation, fresh []net.IP, fresh []*config.Pool
+//@   modifies map[string]*alloc, map[Port]string, map[string]bool, map[string]int, map[string]PoolCounters, fresh *ipaddr.Prefix, fresh *ipaddr.Cursor, fresh *ipaddr.Position, fresh []ipaddr.Prefix, gint("cursor.pos"), fresh []string, fresh []interface{}, fresh *alloc, fresh []Port, fresh *key, fresh *Allocation, fresh []net.IP, fresh []*config.Pool, $held
+//@   requires [unlocked] lockstate(a.countersMutex) == 0
+//@   ensures [unlocked] lockstate(a.countersMutex) == 0
 //@   requires AllocatorOK(a) && svc != nil && PortsOK(ports)
 //@   ensures Inv(a)
 //@   ensures [others] forall s string :: s != svcKey ==> a.allocated[s] == old(a.allocated[s])
@@ -714,7 +731,9 @@ package allocator
 //@     (forall k int :: 0 <= k && k < len(ips) ==> InCIDRs(a.pools.ByName[name], ips[k]))
 
 //@ func (*Allocator).AllocateFromPool
-//@   modifies map[string]*alloc, map[Port]string, map[string]bool, map[string]int, map[string]PoolCounters, fresh *ipaddr.Prefix, fresh *ipaddr.Cursor, fresh *ipaddr.Position, fresh []ipaddr.Prefix, gint("cursor.pos"), fresh []string, fresh []interface{}, fresh *alloc, fresh []Port, fresh *key, fresh *Allocation, fresh []net.IP
+//@   modifies map[string]*alloc, map[Port]string, map[string]bool, map[string]int, map[string]PoolCounters, fresh *ipaddr.Prefix, fresh *ipaddr.Cursor, fresh *ipaddr.Position, fresh []ipaddr.Prefix, gint("cursor.pos"), fresh []string, fresh []interface{}, fresh *alloc, fresh []Port, fresh *key, fresh *Allocation, fresh []net.IP, $held
+//@   requires [unlocked] lockstate(a.countersMutex) == 0
+//@   ensures [unlocked] lockstate(a.countersMutex) == 0
 //@   requires AllocatorOK(a) && svc != nil && PortsOK(ports)
 //@   ensures Inv(a)
 //@   ensures [others] forall s string :: s != svcKey ==> a.allocated[s] == old(a.allocated[s])
@@ -741,7 +760,9 @@ package allocator
 //@   ensures [poolsSame] a.pools == old(a.pools) && (forall n string :: (n in a.pools.ByName) == old(n in a.pools.ByName) && a.pools.ByName[n] == old(a.pools.ByName[n]))
 
 //@ func (*Allocator).AllocateFromPoolForAdditionalFamily
-//@   modifies map[string]*alloc, map[Port]string, map[string]bool, map[string]int, map[string]PoolCounters, fresh *ipaddr.Prefix, fresh *ipaddr.Cursor, fresh *ipaddr.Position, fresh []ipaddr.Prefix, gint("cursor.pos"), fresh []string, fresh []interface{}, fresh *alloc, fresh []Port, fresh *key, fresh *Allocation, fresh []net.IP
+//@   modifies map[string]*alloc, map[Port]string, map[string]bool, map[string]int, map[string]PoolCounters, fresh *ipaddr.Prefix, fresh *ipaddr.Cursor, fresh *ipaddr.Position, fresh []ipaddr.Prefix, gint("cursor.pos"), fresh []string, fresh []interface{}, fresh *alloc, fresh []Port, fresh *key, fresh *Allocation, fresh []net.IP, $held
+//@   requires [unlocked] lockstate(a.countersMutex) == 0
+//@   ensures [unlocked] lockstate(a.countersMutex) == 0
 //@   requires AllocatorOK(a) && svc != nil && PortsOK(ports)
 //@   ensures Inv(a)
 //@   ensures [others] forall s string :: s != svcKey ==> a.allocated[s] == old(a.allocated[s])
@@ -759,9 +780,10 @@ package allocator
 //@ lemma C11.noGhostReservation: forall a *Allocator, x string :: Inv(a) && a.sharingKeyForIP[x] != nil ==> (exists s string :: Holds(a, s, x))
 
 //@ func (*Allocator).CountersForPool
-//@   requires a != nil
+//@   requires a != nil && lockstate(a.countersMutex) == 0
 //@   ensures result == a.poolToCounters[name]
-//@   modifies nothing
+//@   ensures lockstate(a.countersMutex) == 0
+//@   modifies $held
 
 //@ func (*Allocator).updatePoolStats
 //@   requires a != nil && p != nil && a.poolToCounters != nil && PoolCIDRsOK(p)
@@ -771,4 +793,6 @@ package allocator
 //@   ensures [sum4] a.poolToCounters[p.Name].AssignedIPv4 + a.poolToCounters[p.Name].AvailableIPv4 >= 0
 //@   ensures [sum6] a.poolToCounters[p.Name].AssignedIPv6 + a.poolToCounters[p.Name].AvailableIPv6 >= 0
 //@   ensures [others] forall n string :: n != p.Name ==> a.poolToCounters[n] == old(a.poolToCounters[n]) && (n in a.poolToCounters) == old(n in a.poolToCounters)
-//@   modifies map(a.poolToCounters), fresh *ipaddr.Prefix, fresh *ipaddr.Cursor, fresh *ipaddr.Position, fresh []ipaddr.Prefix, gint("cursor.pos"), fresh []string
+//@   requires [unlocked] lockstate(a.countersMutex) == 0
+//@   ensures [unlocked] lockstate(a.countersMutex) == 0
+//@   modifies map(a.poolToCounters), fresh *ipaddr.Prefix, fresh *ipaddr.Cursor, fresh *ipaddr.Position, fresh []ipaddr.Prefix, gint("cursor.pos"), fresh []string, $held
